@@ -1,7 +1,71 @@
-/- placeholder driver for C11: replaced when the model is built -/
+/-
+  Driver for C11: one event queue, a sequence of operations, what each returned.
+  request : {"ops":[{"op":"add","ts":int,"kind":"Plugin|Unplug|Recompute","tag":str} |
+                    {"op":"add_events","events":[{"ts","kind","tag"},…]} | {"op":"get_event"} |
+                    {"op":"get_current","t":int} | {"op":"len"} | {"op":"empty"} | {"op":"last"} |
+                    {"op":"roundtrip"}]}
+  answer  : {"steps":[{"heap": <result of the array-heap layer>, "spec": <result of the
+             pending-multiset layer (first-inserted minimal)>, "len","empty","last" (queries after
+             the operation), "arr" (heap array after the operation), "timestep"}]}
+  Events travel as [ts, kind, tag].
+-/
 import AcnModel.Wire
-open Lean Acn.Wire
+import AcnModel.Queue
+open Lean Acn Acn.Wire
 
-def handle (_ : Json) : Except String Json := throw "driver for C11 not built yet"
+def parseKind (s : String) : Except String EvKind :=
+  if s == EvKind.unplug.name then pure .unplug
+  else if s == EvKind.plugin.name then pure .plugin
+  else if s == EvKind.recompute.name then pure .recompute
+  else throw s!"unknown event kind {s}"
+
+def parseEvent (j : Json) : Except String Event := do
+  pure { ts := ← getInt j "ts", kind := ← parseKind (← getStr j "kind"), sess := ← getStr j "tag" }
+
+def jEvent (e : Event) : Json := Json.arr #[jI e.ts, jS e.kind.name, jS e.sess]
+
+def jOut : QOut → Json
+  | .unit => Json.mkObj [("r", jS "unit")]
+  | .event e => Json.mkObj [("r", jS "event"), ("e", jEvent e)]
+  | .events es => Json.mkObj [("r", jS "events"), ("es", jList jEvent es)]
+  | .nat n => Json.mkObj [("r", jS "nat"), ("n", jN n)]
+  | .bool b => Json.mkObj [("r", jS "bool"), ("b", jB b)]
+  | .ts o => Json.mkObj [("r", jS "ts"), ("t", jOpt jI o)]
+  | .err e => Json.mkObj [("r", jS "err"), ("e", jS e.name)]
+  | .wire w t => Json.mkObj [("r", jS "wire"),
+      ("w", jList (fun p => Json.arr #[jI p.1, jEvent p.2]) w), ("timestep", jI t)]
+
+def parseOp (o : Json) : Except String QOp := do
+  let op ← getStr o "op"
+  if op == "add" then pure (.add (← parseEvent o))
+  else if op == "add_events" then
+    let es ← (← getArr o "events").mapM parseEvent
+    pure (.addAll es)
+  else if op == "get_event" then pure .getEvent
+  else if op == "get_current" then pure (.getCurrent (← getInt o "t"))
+  else if op == "len" then pure .len
+  else if op == "empty" then pure .empty
+  else if op == "last" then pure .last
+  else if op == "roundtrip" then pure .roundtrip
+  else throw s!"unknown op {op}"
+
+/-- after every operation the three queries and the array layout are reported as well -/
+def handle (j : Json) : Except String Json := do
+  let ops ← (← getArr j "ops").mapM parseOp
+  let mut h := Queue.empty0
+  let mut s := QSpec.empty0
+  let mut steps : Array Json := #[]
+  for op in ops do
+    let rh := Queue.step h op
+    let rs := QSpec.step s op
+    h := rh.1
+    s := rs.1
+    steps := steps.push (Json.mkObj [
+      ("heap", jOut rh.2), ("spec", jOut rs.2),
+      ("len", jN (Queue.len h)), ("empty", jB (Queue.empty h)), ("last", jOpt jI (Queue.lastTimestamp h)),
+      ("arr", jList jEvent h.heap.toList), ("timestep", jI h.timestep),
+      ("spec_len", jN (QSpec.len s)), ("spec_last", jOpt jI (QSpec.lastTimestamp s))])
+  pure (Json.mkObj [("steps", Json.arr steps),
+                    ("prec", Json.arr #[jS (toString Gen.precUnplug), jS (toString Gen.precPlugin), jS (toString Gen.precRecompute)])])
 
 def main : IO Unit := runDriver handle
